@@ -25,7 +25,11 @@ ASSUMPTIONS = ["the audit hook sees every file-system mutation CPython performs;
                "POSIX only"]
 
 NAMES = ["a", "b", "a/b", "b/evil", "a/b/c", "..", "../x", "../../x", "a/../x", "a/../../x", "./a", "a/./b", "/abs_evil", "//abs2", "dest", "../dest/x", "a/", "x", "f",
-         "a/../b", "a/../a", "./b", "b/../a", "a/../c", "c"]
+         "a/../b", "a/../a", "./b", "b/../a", "a/../c", "c",
+         # the relative-path marker and redundant separators in front of a path that is absolute on its own: what is
+         # validated (joined to the destination, separators collapsed) must be what is created
+         ".", "./", "a/..", "../dest", "./a/..",
+         ".//JAIL_OUT/nd", "./JAIL_OUT/nd", ".///JAIL_OUT/nd", "././/JAIL_OUT/nd", "a/..//JAIL_OUT/nd", ".//JAIL_OUT", ".//", "./.", "./..", ".//../x"]
 TARGETS = [".", "..", "../..", "a", "a/..", "a/../..", "b", "x", "/etc", "JAIL_OUT", "JAIL_DEST", "../outside_file", "../outside_dir", "f", "a/../x", "b/a", "a/../.."]
 
 
@@ -38,6 +42,7 @@ def entry_space(rng, thorough):
         ents.append((n, "file", b"payload-" + n.encode()))
         ents.append((n, "emptyfile", None))          # a file member without a stream (7-Zip's zero-length file): created with touch()
         ents.append((n, "dir", None))
+        ents.append((n, "emptylink", None))          # an entry with the symbolic-link attribute but no stream
         for t in TARGETS:
             ents.append((n, "symlink", t))
     return ents
@@ -73,10 +78,21 @@ def gen_archives(rng, thorough):
         [("a", "symlink", "."), ("a/b", "symlink", ".."), ("b/../a", "symlink", "b"), ("a/a", "file", b"cached")],
         [("a", "symlink", "."), ("a/b", "symlink", ".."), ("./a", "symlink", "b"), ("a/x", "emptyfile", None)],
         [("a", "dir", None), ("a/x", "file", b"1"), ("b", "symlink", ".."), ("b/../a", "symlink", "b"), ("a/y", "file", b"2")],
+        # a stream-less entry flagged as a link, standing on a link extracted earlier
+        [("a", "symlink", "."), ("l", "symlink", "a/../victim"), ("./l", "emptylink", None)],
+        [("l", "symlink", "../outside_file"), ("./l", "emptylink", None)],
+        [("a", "symlink", "."), ("a/b", "symlink", ".."), ("b/evil", "emptylink", None)],
+        # marker / separator prefixes
+        [(".//JAIL_OUT/nd", "dir", None)],
+        [(".//JAIL_OUT/nd", "file", b"x")],
+        [(".//JAIL_OUT/nd", "emptyfile", None)],
+        [(".//JAIL_OUT/nd", "symlink", ".")],
+        [(".//JAIL_OUT/nd/deeper/still", "dir", None)],
     ]
     out += chains
     EXPLICIT[:] = chains      # these also run under every destination spelling and open mode (see run)
     out += skeleton_archives(rng, 1500 if thorough else 350)
+    out += duplicate_archives(rng, 600 if thorough else 120)
     n2 = 3000 if thorough else 700
     for _ in range(n2):
         k = rng.choice([2, 2, 3, 3, 4] if thorough else [2, 2, 3])
@@ -101,6 +117,37 @@ def alias(rng, path):
     return path
 
 
+def duplicate_archives(rng, n):
+    """2..4 entries whose names are spellings of ONE output location (the destination root itself, `a`, or `a/b`), of
+    any kinds: duplicates are renamed (`_0`, `_1`, ...) on extraction, and the renamed path is a new path that must
+    itself stay inside the destination — also when the location is the root, whose sibling lies outside."""
+    groups = [[".", "./", "a/..", "../dest", "./a/..", "b/..", "./."],
+              ["a", "./a", "a/", "b/../a", "a/.", "x/../a"],
+              ["a/b", "./a/b", "a/./b", "a/c/../b", "a/b/"]]
+    out = []
+    # systematic: every pair of spellings of the root, both orders, as directories (the kind that is created before
+    # any guarded write) and as files
+    for x in groups[0]:
+        for y in groups[0]:
+            out.append([(x, "dir", None), (y, "dir", None)])
+    for x in groups[0][:4]:
+        for kind in ("file", "emptyfile", "emptylink"):
+            out.append([(x, "dir", None), (x, kind, b"dup" if kind == "file" else None), (x, "dir", None)])
+    for _ in range(n):
+        g = rng.choice(groups)
+        k = rng.choice([2, 2, 3, 4])
+        ents = []
+        for _ in range(k):
+            nm = rng.choice(g) if rng.random() < 0.8 else g[0]
+            kind = rng.choice(["dir", "dir", "file", "emptyfile", "symlink", "emptylink"])
+            payload = b"dup" if kind == "file" else (rng.choice(TARGETS) if kind == "symlink" else None)
+            ents.append((nm, kind, payload))
+        if rng.random() < 0.4:
+            ents.append((rng.choice(g) + rng.choice(["/evil", "_0/evil", "_0"]), rng.choice(["file", "dir"]), b"evil"))
+        out.append(ents)
+    return out
+
+
 def skeleton_archives(rng, n):
     """Grammar over the shapes that have defeated path guards so far: (1) links that make an upward path out of
     individually harmless targets, (2) optionally a link re-pointed or duplicated under another spelling of an
@@ -113,7 +160,7 @@ def skeleton_archives(rng, n):
             thirds = [None] + [(al, "b") for al in ("b/../a", "./a", "a/../a", "x/../a")] + [("c", "b/a")]
             for third in thirds:
                 for pname in ("a/a", "b/evil", "a/b/evil", "a/x", "c", "c/evil", "a/../b", "a/../c"):
-                    for kind in ("file", "emptyfile", "dir"):
+                    for kind in ("file", "emptyfile", "emptylink", "dir"):
                         ents = [("a", "symlink", "."), (l2, "symlink", t2)]
                         if third:
                             ents.append((third[0], "symlink", third[1]))
@@ -137,7 +184,7 @@ def skeleton_archives(rng, n):
                             base2 + "/outside_file", "c/outside_file"])
         if rng.random() < 0.5:
             pname = alias(rng, pname)
-        kind = rng.choice(["file", "file", "emptyfile", "dir", "symlink"])
+        kind = rng.choice(["file", "file", "emptyfile", "emptylink", "dir", "symlink"])
         payload = b"evil" if kind == "file" else (rng.choice(["..", "../outside_dir", "JAIL_OUT"]) if kind == "symlink" else None)
         ents.append((pname, kind, payload))
         if rng.random() < 0.3:
@@ -149,7 +196,10 @@ def skeleton_archives(rng, n):
 def build(entries, jail, rng):
     members = []
     for name, kind, payload in entries:
-        if kind == "symlink":
+        name = name.replace("JAIL_OUT", os.path.join(jail, "outside_dir").lstrip("/"))
+        if kind == "emptylink":
+            members.append({"name": name, "kind": "emptyfile", "data": b"", "attr": c06.LINK_ATTR, "mtime": 125000000000000000, "ctime": None, "atime": None})
+        elif kind == "symlink":
             t = payload.replace("JAIL_OUT", os.path.join(jail, "outside_dir")).replace("JAIL_DEST", os.path.join(jail, "dest"))
             members.append({"name": name, "kind": "symlink", "data": t.encode(), "attr": c06.LINK_ATTR, "mtime": 130000000000000000, "ctime": None, "atime": None})
         elif kind == "emptyfile":
@@ -285,6 +335,28 @@ def run(ctx):
             lines.append("path.out %s %s" % (c16.enc(n), c16.enc(base)))
             outs.append(o)
     ctx.correspond("path.out", lines, outs)
+    # the working-directory branch (extractall() without a path): evaluated with the process really standing in the directory
+    for pre in ("./", ".//", ".///", "././/", "//", "/./"):
+        for n in ("a", "etc/x", "dest/x", "..", "../x", "a/../../x", ""):
+            names.add(pre + n)
+    wd = tempfile.mkdtemp(prefix="verif_c03_cwd_")
+    lines, outs = [], []
+    old = os.getcwd()
+    try:
+        os.makedirs(os.path.join(wd, "dest", "a"))
+        for cwd in (os.path.join(wd, "dest"), os.path.join(wd, "dest", "a"), "/"):
+            os.chdir(cwd)
+            for n in sorted(names):
+                try:
+                    o = "ok " + c16.enc(str(helpers.get_sanitized_output_path(n, None)))
+                except py7zr.exceptions.Bad7zFile:
+                    o = "bad"
+                lines.append("path.outcwd %s %s" % (c16.enc(n), c16.enc(os.path.realpath(cwd))))
+                outs.append(o)
+    finally:
+        os.chdir(old)
+        shutil.rmtree(wd, ignore_errors=True)
+    ctx.correspond("path.outcwd", lines, outs)
 
     tmp = tempfile.mkdtemp(prefix="verif_c03_")
     try:
